@@ -15,6 +15,7 @@ GROUPS = [
     G('contain', 'contain', 'h_contain', n=3, r=1),
     G('signed_area', 'signed_area', 'h_signed_area', n=3, r=2),
     G('area', 'area', 'h_area', n=3, r=2, replace=['Repetition__get_count']),
+    G('perimeter', 'perimeter', 'h_perimeter', n=3, r=1, tier='thorough', timeout=2400),
     G('contain_r2', 'contain', 'h_contain', n=3, r=2, tier='thorough', timeout=3600),
     G('area_n4', 'area', 'h_area', n=4, r=2, tier='thorough', timeout=3600, replace=['Repetition__get_count']),
 ] + [
@@ -32,5 +33,5 @@ GROUPS = [
     ]
 ]
 TRUSTED_BASE = ['clang 14 AST', 'tools/cxx2c.py lowering', 'cbmc 6.11.0 (SAT, bit-precise IEEE doubles)', 'the integer oracle in harness/c14.c']
-ASSUMPTIONS = ['bounded: vertex count and coordinate grid as stated per group', 'group queries: ASSUMED lemma that a contained point lies in the polygon bounding box (asserted, bounded, in group contain); not covered: perimeter, repetition kinds other than Rectangular for area']
+ASSUMPTIONS = ['bounded: vertex count and coordinate grid as stated per group', 'group queries: ASSUMED lemma that a contained point lies in the polygon bounding box (asserted, bounded, in group contain); perimeter is in the thorough tier only; not covered: repetition kinds other than Rectangular for area']
 EXPLANATION = 'bounded exhaustive comparison of the real functions against an exact integer oracle; no unbounded claim'
